@@ -133,10 +133,16 @@ Granted_OK(s, s2, c) ==
   (c.kind \in {"create_loan", "create_order"} /\ NewOpenLoans(s, s2) # {}) => MarginRequirementMet(s2)
 
 \* C11: why loans close, what a repayment debits
+\* (what a loan shows, without the time-dependent outstanding interest)
+ObsLoanFixed(l) == [open |-> l.open, sym |-> l.sym, amount |-> l.amount, paid |-> l.paid]
+\* an open loan has paid nothing yet (interest is paid when the loan is repaid); amounts are positive, payments non-negative
+Inv_C11_OpenUnpaid(s) ==
+  \A j \in 1..Len(s.loans) : LET l == s.loans[j] IN
+     /\ l.amount > 0 /\ (l.open => l.paid = D0) /\ \A x \in Syms : l.paid[x] >= 0
 LoanClosure_OK(s, s2, c) ==
   /\ \A j \in 1..Len(s.loans) :
         LET l == s.loans[j]  l2 == s2.loans[j] IN
-        /\ (~l.open => l2 = l)                                            \* closed loans never change
+        /\ (~l.open => ObsLoanFixed(l2) = ObsLoanFixed(l))                \* closed loans never change
         /\ (l.open /\ ~l2.open =>
               \/ c.kind = "repay_loan" /\ c.arg = j /\ c.ok
                  /\ l2.paid = Only(l.c.isym, InterestOf(s, l, s.clock))
